@@ -148,6 +148,57 @@ func TestVerif_C04b(t *testing.T) {
 			rep.Sample(map[string]interface{}{"a": vh.Hex(a), "b": vh.Hex(b), "c": vh.Hex(c), "hash24_a": ha, "hash24_b": EntryHash64(0, b) & mask})
 		}
 	}
+	// ---- metadata of every allowed size: 0, 1, 254 and 255 pairs (the format's maximum) must seal AND open
+	for _, npairs := range []int{0, 1, 2, 254, 255} {
+		rep.Case(fmt.Sprintf("meta-pairs/%d", npairs), true)
+		rep.Count("metadata-pair-count-builds")
+		func() {
+			dirb, _ := os.MkdirTemp(dir, "m")
+			defer os.RemoveAll(dirb)
+			b, err := NewBuilderSized(dirb, 3, 4)
+			if err != nil {
+				rep.Fail("unexpected-build-error", err.Error(), nil)
+				return
+			}
+			defer b.Close()
+			for i := 0; i < npairs; i++ {
+				if err := b.Metadata().Add([]byte{byte(i), 0x6b}, []byte{byte(i), byte(i >> 3), 7}); err != nil {
+					rep.Fail("metadata-add-rejected", fmt.Sprintf("pair %d of %d: %v", i, npairs, err), nil)
+					return
+				}
+			}
+			keys := [][]byte{[]byte("k-one"), []byte("k-two"), []byte("k-three")}
+			for i, k := range keys {
+				if err := b.Insert(k, []byte{byte(i), 1, 2, 3}); err != nil {
+					rep.Fail("unexpected-build-error", err.Error(), nil)
+					return
+				}
+			}
+			f, _ := os.CreateTemp(dir, "c04b-meta-*.index")
+			defer os.Remove(f.Name())
+			defer f.Close()
+			if err := b.Seal(context.Background(), f); err != nil {
+				rep.Fail("unexpected-build-error", fmt.Sprintf("%d metadata pairs: seal: %v", npairs, err), nil)
+				return
+			}
+			file, _ := os.ReadFile(f.Name())
+			db, err := Open(bytes.NewReader(file))
+			if err != nil {
+				rep.Fail("sealed-index-unreadable", fmt.Sprintf("an index sealed with %d metadata pairs cannot be opened: %v (every inserted key is lost although the build reported success)", npairs, err),
+					map[string]interface{}{"metadata_pairs": npairs})
+				return
+			}
+			if got := len(db.Header.Metadata.KeyVals); got != npairs {
+				rep.Fail("metadata-not-read-back", fmt.Sprintf("%d pairs written, %d read back", npairs, got), map[string]interface{}{"metadata_pairs": npairs})
+			}
+			for i, k := range keys {
+				got, err := db.Lookup(k)
+				if err != nil || !bytes.Equal(got, []byte{byte(i), 1, 2, 3}) {
+					rep.Fail("lost-entry", fmt.Sprintf("%d metadata pairs: key %s: %v %x", npairs, k, err, got), map[string]interface{}{"metadata_pairs": npairs})
+				}
+			}
+		}()
+	}
 	if err := rep.Write(); err != nil {
 		t.Fatal(err)
 	}
